@@ -19,6 +19,12 @@ def gen_case(rng, thorough):
             ps = rng.sample(locs, rng.randint(0, min(2, k)))
             if rng.random() < 0.1: ps = ps + ["nowhere"]       # a parent that does not exist
             ops.append({"op": "setParents", "loc": loc, "parents": ps})   # self and indirect loops arise naturally
+        elif r < 0.22:
+            # the parent set is the property fact !.parents: it can also be written, removed or cleared like any other fact
+            z = rng.random()
+            if z < 0.5: ops.append({"op": "addFact", "loc": loc, "id": "", "fact": {"!parents": rng.sample(locs, rng.randint(0, min(2, k)))}})
+            elif z < 0.8: ops.append({"op": "remFact", "loc": loc, "id": "!.parents"})
+            else: ops.append({"op": "clear", "loc": loc})
         elif r < 0.40:
             ops.append({"op": "addFact", "loc": loc, "id": rng.choice(["f1", "f2", "f3"]) + loc, "fact": {"k": rng.choice([1, 2, "x"]), "at": loc}})
         elif r < 0.50:
